@@ -40,6 +40,8 @@ pub enum Request {
     Parse(Kind, Vec<u8>),
     Pad(Kind, Vec<u8>, u8),
     Build(B, Vec<(usize, Fill)>),
+    /// only `calculate_size()` and `get_padding()`
+    Size(B),
 }
 
 #[derive(Debug)]
@@ -441,6 +443,10 @@ pub fn request(s: &Sexp) -> Result<Request, Bad> {
                 }
             }
             Ok(Request::Build(b, specs))
+        }
+        "size" => {
+            arity(args, 1)?;
+            Ok(Request::Size(builder(&args[0])?))
         }
         _ => Err("request"),
     }
